@@ -10,9 +10,9 @@ Directives.vos Directives.vok Directives.required_vos: Directives.v Ast.vos
 Erase.vo Erase.glob Erase.v.beautified Erase.required_vo: Erase.v Ast.vo Generated.vo HookSites.vo Directives.vo
 Erase.vio: Erase.v Ast.vio Generated.vio HookSites.vio Directives.vio
 Erase.vos Erase.vok Erase.required_vos: Erase.v Ast.vos Generated.vos HookSites.vos Directives.vos
-Extract.vo Extract.glob Extract.v.beautified Extract.required_vo: Extract.v Ast.vo Generated.vo Config.vo ToConfig.vo SrcMap.vo Literals.vo Model.vo HookSites.vo Known.vo Directives.vo Erase.vo Sites.vo Hygiene.vo Shapes.vo Order.vo WfTree.vo
-Extract.vio: Extract.v Ast.vio Generated.vio Config.vio ToConfig.vio SrcMap.vio Literals.vio Model.vio HookSites.vio Known.vio Directives.vio Erase.vio Sites.vio Hygiene.vio Shapes.vio Order.vio WfTree.vio
-Extract.vos Extract.vok Extract.required_vos: Extract.v Ast.vos Generated.vos Config.vos ToConfig.vos SrcMap.vos Literals.vos Model.vos HookSites.vos Known.vos Directives.vos Erase.vos Sites.vos Hygiene.vos Shapes.vos Order.vos WfTree.vos
+Extract.vo Extract.glob Extract.v.beautified Extract.required_vo: Extract.v Ast.vo Generated.vo Config.vo ToConfig.vo SrcMap.vo Literals.vo Model.vo HookSites.vo Known.vo Directives.vo Erase.vo Sites.vo Hygiene.vo Shapes.vo Order.vo WfTree.vo Sem.vo SemTie.vo
+Extract.vio: Extract.v Ast.vio Generated.vio Config.vio ToConfig.vio SrcMap.vio Literals.vio Model.vio HookSites.vio Known.vio Directives.vio Erase.vio Sites.vio Hygiene.vio Shapes.vio Order.vio WfTree.vio Sem.vio SemTie.vio
+Extract.vos Extract.vok Extract.required_vos: Extract.v Ast.vos Generated.vos Config.vos ToConfig.vos SrcMap.vos Literals.vos Model.vos HookSites.vos Known.vos Directives.vos Erase.vos Sites.vos Hygiene.vos Shapes.vos Order.vos WfTree.vos Sem.vos SemTie.vos
 Generated.vo Generated.glob Generated.v.beautified Generated.required_vo: Generated.v 
 Generated.vio: Generated.v 
 Generated.vos Generated.vok Generated.required_vos: Generated.v 
@@ -97,6 +97,9 @@ Partial.vos Partial.vok Partial.required_vos: Partial.v Ast.vos Generated.vos Co
 Sem.vo Sem.glob Sem.v.beautified Sem.required_vo: Sem.v 
 Sem.vio: Sem.v 
 Sem.vos Sem.vok Sem.required_vos: Sem.v 
+SemTie.vo SemTie.glob SemTie.v.beautified SemTie.required_vo: SemTie.v Ast.vo Generated.vo Model.vo HookSites.vo Sem.vo
+SemTie.vio: SemTie.v Ast.vio Generated.vio Model.vio HookSites.vio Sem.vio
+SemTie.vos SemTie.vok SemTie.required_vos: SemTie.v Ast.vos Generated.vos Model.vos HookSites.vos Sem.vos
 Shapes.vo Shapes.glob Shapes.v.beautified Shapes.required_vo: Shapes.v Ast.vo Generated.vo HookSites.vo Erase.vo
 Shapes.vio: Shapes.v Ast.vio Generated.vio HookSites.vio Erase.vio
 Shapes.vos Shapes.vok Shapes.required_vos: Shapes.v Ast.vos Generated.vos HookSites.vos Erase.vos
